@@ -403,6 +403,103 @@ def task_validation(ctx, which=None):
       ctx.error(f'validation.{fn}', f'CrossHair inconclusive: {txt[:200]}')
 
 
+class NZ:
+  """A symbolic (traced) tableau coefficient that is DECLARED non-zero: truthiness is True (the drivers skip zero entries with
+  `if a[i][j]`), arithmetic is that of the wrapped tracer, equality is identity (two slots holding the same symbol are equal)."""
+  __array_priority__ = 1000
+
+  def __init__(self, v): self.v = v
+  def __bool__(self): return True
+  def __mul__(self, o): return self.v * (o.v if isinstance(o, NZ) else o)
+  def __rmul__(self, o): return (o.v if isinstance(o, NZ) else o) * self.v
+  def __add__(self, o): return self.v + (o.v if isinstance(o, NZ) else o)
+  __radd__ = __add__
+  def __sub__(self, o): return self.v - (o.v if isinstance(o, NZ) else o)
+  def __rsub__(self, o): return (o.v if isinstance(o, NZ) else o) - self.v
+  def __neg__(self): return -self.v
+  def __eq__(self, o): return self is o
+  def __hash__(self): return id(self)
+
+
+def task_generic_drivers(ctx, which, pattern):
+  """The two generic drivers equal their textbook definition for EVERY coefficient set of the given zero pattern and for EVERY
+  explicit / implicit / solve operator (uninterpreted functions), every step size and state:
+    imex_runge_kutta:  Y_i = Ginv(y0 + dt sum_{j<i} aE_ij F(Y_j) + dt sum_{j<i} aI_ij G(Y_j), dt aI_ii),  Y_0 = y0,
+                       y1 = y0 + dt sum_j bE_j F(Y_j) + dt sum_j bI_j G(Y_j)            (Ascher, Ruuth & Spiteri 1997)
+    low_storage_runge_kutta_crank_nicolson (Canuto et al. 2007, D.3):
+                       h_k = F(u_k) + beta_k h_{k-1},  mu_k = dt (alpha_{k+1} - alpha_k) / 2,
+                       u_{k+1} = Ginv(u_k + gamma_k dt h_k + mu_k G(u_k), mu_k)."""
+  from dinosaur import time_integration as ti
+  from checks.c14 import decide_equal
+  from dverif.ufprim import uf
+  ctx.encoded(ti.imex_runge_kutta, ti.ImExButcherTableau, ti.low_storage_runge_kutta_crank_nicolson)
+  F = lambda y: uf('F', y)
+  G = lambda y: uf('G', y)
+  Ginv = lambda x, eta: uf('Ginv', x, eta * jnp.ones_like(x))
+  eq = ti.ImplicitExplicitODE.from_functions(F, G, Ginv)
+  if which == 'imex':
+    # pattern: (s, strictly-lower explicit mask rows 1..s-1, lower-incl-diagonal implicit mask rows 1..s-1, b_ex mask, b_im: mask | 'last_row', b_ex: mask | 'last_row')
+    s, mE, mI, bE, bI = PATTERNS[pattern]
+    slots = []        # flat list of symbol slots
+
+    def build(vals):
+      it = iter(vals)
+      aE = [[(NZ(next(it)) if mE[i][j] else 0.0) for j in range(i + 1)] for i in range(s - 1)]
+      aI = [[(NZ(next(it)) if mI[i][j] else 0.0) for j in range(i + 2)] for i in range(s - 1)]
+      be = (aE[-1] + [0.0]) if bE == 'last_row' else [(NZ(next(it)) if bE[j] else 0.0) for j in range(s)]
+      bi = list(aI[-1]) if bI == 'last_row' else [(NZ(next(it)) if bI[j] else 0.0) for j in range(s)]
+      return aE, aI, be, bi
+    nsym = sum(sum(r) for r in mE) + sum(sum(r) for r in mI) + (0 if bE == 'last_row' else sum(bE)) + (0 if bI == 'last_row' else sum(bI))
+    val = lambda c: c.v if isinstance(c, NZ) else c
+
+    def impl(dt, y0, coef):
+      aE, aI, be, bi = build([coef[k] for k in range(nsym)])
+      return ti.imex_runge_kutta(ti.ImExButcherTableau(a_ex=aE, a_im=aI, b_ex=be, b_im=bi), eq, dt)(y0)
+
+    def spec(dt, y0, coef):
+      aE, aI, be, bi = build([coef[k] for k in range(nsym)])
+      Y = [y0]
+      for i in range(1, s):
+        acc = y0
+        for j in range(i):
+          acc = acc + dt * val(aE[i - 1][j]) * F(Y[j]) + dt * val(aI[i - 1][j]) * G(Y[j])
+        Y.append(Ginv(acc, dt * val(aI[i - 1][i])))
+      y1 = y0
+      for j in range(s):
+        y1 = y1 + dt * val(be[j]) * F(Y[j]) + dt * val(bi[j]) * G(Y[j])
+      return y1
+    conf = dict(driver='imex_runge_kutta', pattern=pattern, stages=s, symbolic_coefficients=nsym)
+    decide_equal(ctx, 'generic.imex_runge_kutta_equals_definition_for_every_tableau', conf, impl, spec, [(), (2,), (nsym,)], logic='QF_UFNRA', eps=1e-9, box=1.0)
+  else:
+    n = int(pattern)
+
+    def impl(dt, y0, al, be, ga):
+      return ti.low_storage_runge_kutta_crank_nicolson([NZ(al[k]) for k in range(n + 1)], [NZ(be[k]) for k in range(n)], [NZ(ga[k]) for k in range(n)], eq, dt)(y0)
+
+    def spec(dt, y0, al, be, ga):
+      u = y0; h = 0.0 * y0
+      for k in range(n):
+        h = F(u) + be[k] * h
+        mu = 0.5 * dt * (al[k + 1] - al[k])
+        u = Ginv(u + ga[k] * dt * h + mu * G(u), mu)
+      return u
+    conf = dict(driver='low_storage_runge_kutta_crank_nicolson', stages=n)
+    decide_equal(ctx, 'generic.low_storage_rk_cn_equals_definition_for_every_coefficient_set', conf, impl, spec, [(), (2,), (n + 1,), (n,), (n,)], logic='QF_UFNRA', eps=1e-9, box=1.0)
+
+
+# zero patterns of IMEX tableaux: 1 = symbolic non-zero entry, 0 = structural zero
+PATTERNS = {
+    '2-stage-dense': (2, [[1]], [[1, 1]], [1, 1], [1, 1]),
+    '3-stage-dense': (3, [[1], [1, 1]], [[1, 1], [1, 1, 1]], [1, 1, 1], [1, 1, 1]),
+    '3-stage-stiffly-accurate-implicit-free-b_ex': (3, [[1], [1, 1]], [[0, 1], [0, 1, 1]], [1, 1, 1], 'last_row'),       # ARS(2,3,2) pattern with b_ex unconstrained
+    '3-stage-ars232': (3, [[1], [1, 1]], [[0, 1], [0, 1, 1]], [0, 1, 1], 'last_row'),
+    '3-stage-both-close-on-last-stage': (3, [[1], [1, 1]], [[1, 1], [1, 1, 1]], 'last_row', 'last_row'),
+    '4-stage-sil3-pattern': (4, [[1], [1, 1], [1, 1, 1]], [[1, 1], [1, 0, 1], [1, 0, 1, 1]], [1, 1, 1, 0], 'last_row'),
+    '4-stage-ars343-pattern': (4, [[1], [1, 1], [1, 1, 1]], [[0, 1], [0, 1, 1], [0, 1, 1, 1]], [0, 1, 1, 1], 'last_row'),
+    '3-stage-explicit-only-diagonal-free': (3, [[1], [1, 1]], [[0, 0], [0, 0, 0]], [1, 1, 1], [0, 0, 0]),
+}
+
+
 def make_tasks(tier, seed):
   tasks = []
   for m in METHODS:
@@ -423,6 +520,10 @@ def make_tasks(tier, seed):
       tasks.append(dict(name=f'stability-plane-{m}', fn='task_stability', kw=dict(method=m, plane='half')))
     for m in METHODS:
       tasks.append(dict(name=f'order-{m}-vector-general', fn='task_order', kw=dict(method=m, problem='vector', variant='general')))
+  for pat in PATTERNS:
+    tasks.append(dict(name=f'generic-imex-{pat}', fn='task_generic_drivers', kw=dict(which='imex', pattern=pat)))
+  for n in (1, 2, 3) + (() if tier == 'quick' else (5,)):
+    tasks.append(dict(name=f'generic-lowstorage-{n}', fn='task_generic_drivers', kw=dict(which='lowstorage', pattern=str(n))))
   tasks.insert(0, dict(name='validation-low-storage', fn='task_validation', kw=dict(which='low_storage_accepts_only_consistent_lengths')))
   tasks.insert(1, dict(name='validation-tableau', fn='task_validation', kw=dict(which='butcher_tableau_accepts_only_consistent_lengths')))
   return tasks
